@@ -816,6 +816,17 @@ class Item:
         self._log('R7', 'ghost/proof text before loop #%d of %s' % (ordinal, fn_name))
         return self
 
+    def after_loop(self, fn_name, ordinal, text):
+        """Insert text on its own line(s) right after the closing brace of loop #ordinal of fn_name."""
+        self._begin_splices()
+        b, o, e = self._loop_span(fn_name, ordinal)
+        ls = self.text.rfind('\n', 0, b) + 1
+        ind = re.match(r'[ \t]*', self.text[ls:]).group(0)
+        block = '\n'.join(ind + l for l in text.strip().split('\n'))
+        self.text = self.text[:e] + '\n' + sp(block) + self.text[e:]
+        self._log('R7', 'ghost/proof text after loop #%d of %s' % (ordinal, fn_name))
+        return self
+
     def at_body_start(self, fn_name, text):
         """Insert text as the first statement(s) of fn_name's body."""
         self._begin_splices()
